@@ -277,6 +277,15 @@ def _length_guarded(f, sub):
                      'len(%s)<1' % name, '0==len(%s)' % name,
                      '%s==[]' % name, 'notlen(%s)' % name):
                 return True
+        # ... or is it the first thing done in a loop (or branch) that runs
+        # only while X is non-empty
+        if isinstance(st, (ast.While, ast.If)) and st.body and any(
+                n is sub for n in ast.walk(st.body[0])):
+            t = U(st.test).replace(' ', '')
+            if t in ('len(%s)>0' % name, name, 'len(%s)>=1' % name,
+                     'len(%s)!=0' % name, 'len(%s)' % name,
+                     '0<len(%s)' % name, '%s!=[]' % name):
+                return True
     return False
 
 
